@@ -546,9 +546,32 @@ func solveVC(vc *VC, idx int, secs int, mode string) {
 		if first > 4 {
 			first = 4
 		}
-		r := try(solvers[0], first)
-		all = append(all, r)
-		if r.st != want && mode != "quick1" {
+		// stage 1: z3 5.1.0 and cvc5's E-matching configuration side by side for a short time (between them
+		// they decide almost every VC in well under a second); stage 2: all four for the full limit.
+		stage1 := []solverSpec{solvers[0]}
+		if mode != "quick1" {
+			stage1 = append(stage1, solvers[len(solvers)-1])
+		}
+		got := false
+		{
+			ch := make(chan res, len(stage1))
+			for _, sp := range stage1 {
+				go func(sp solverSpec) { ch <- try(sp, first) }(sp)
+			}
+			for range stage1 {
+				r := <-ch
+				all = append(all, r)
+				if r.st == want {
+					got = true
+					stopRace()
+					break
+				}
+			}
+		}
+		if !got && mode != "quick1" {
+			// a new race context: the first one was not cancelled, but keep the two stages independent
+			race2, stop2 := context.WithCancel(context.Background())
+			defer stop2()
 			ch := make(chan res, len(solvers))
 			n := 0
 			for i, sp := range solvers {
@@ -556,13 +579,16 @@ func solveVC(vc *VC, idx int, secs int, mode string) {
 					continue
 				}
 				n++
-				go func(sp solverSpec) { ch <- try(sp, secs) }(sp)
+				go func(sp solverSpec) {
+					st, out, d := runSolverCtx(race2, sp, file, secs)
+					ch <- res{st, out, sp.name, d}
+				}(sp)
 			}
 			for i := 0; i < n; i++ {
 				r := <-ch
 				all = append(all, r)
 				if r.st == want {
-					stopRace() // the others are killed; their (interrupted) answers are not needed
+					stop2() // the others are killed; their (interrupted) answers are not needed
 					break
 				}
 			}
@@ -632,8 +658,15 @@ func solveAll(vcs []*VC, secs int, mode string, par int) {
 			}
 			solveVC(vc, i, secs, mode)
 			if !vc.ExpectSat && (vc.Status == "timeout" || vc.Status == "unknown" || vc.Status == "error") {
-				// one retry with a longer limit before it counts as failed
-				solveVC(vc, i, secs*2, "all")
+				// One retry before it counts as failed: all configurations raced again, first answer wins,
+				// with four times the limit (a machine that runs many checks at once can slow a 0.5 s
+				// query down by an order of magnitude; seen once: two benign changes "failed" the same
+				// unrelated obligation while three other batch jobs were running).
+				if mode == "all" {
+					solveVC(vc, i, secs*2, "all")
+				} else {
+					solveVC(vc, i, secs*4, mode)
+				}
 			}
 		}(i, vc)
 	}
